@@ -42,7 +42,10 @@ PINS = {"valid": "abcd1234", "valid2": "Zz345678", "short": "abc1234", "long": "
         # eight alphanumerics: accented letter (2 bytes), full-width digit (3 bytes),
         # and eight characters that are letters in Unicode only
         "accented": "abcde1\u00fc", "fullwidth": "abcd1\uff12", "onlyletters": "\u00e9" * 4,
-        "digits-accented": "123456\u00fc"}
+        "digits-accented": "123456\u00fc",
+        # a compliant PIN with a blank, newline or tab around it (nine characters)
+        "padded-right": "abcd1234 ", "padded-left": " abcd1234", "padded-nl": "abcd1234\n",
+        "padded-tab-7": "abcd123\t"}
 ANSWERS = {"yes": "yes\n", "Yes": "Yes\n", "YES": "YES\n", "no": "no\n", "n": "n\n",
            "No": "No\n", "other-yes": "maybe\ny\nyes\n", "other-no": "yep\nNO\n", "eof": "",
            "yes-space": " yes\n"}
